@@ -225,6 +225,45 @@ func c18r4(p *Program, r *Report) {
 					how = "under " + flagName + ", which is set only inside the loop over the server's COMPRESSION list under equality with compressor.Name()"
 				}
 			}
+			if !okReq {
+				// through a membership helper: the assignment is under contains(<server list>, <name>) true
+				for atom, v := range f.m {
+					if !v {
+						continue
+					}
+					var call *ast.CallExpr
+					ast.Inspect(fi.Decl.Body, func(m ast.Node) bool {
+						if c, ok := m.(*ast.CallExpr); ok && call == nil && strings.ReplaceAll(exprStr(c), " ", "") == strings.ReplaceAll(atom, " ", "") {
+							call = c
+						}
+						return true
+					})
+					if call == nil || len(call.Args) != 2 {
+						continue
+					}
+					fn := calleeOf(info, call)
+					if fn == nil {
+						continue
+					}
+					h := p.FuncOf(fn)
+					if h == nil || !isContainsFunc(p, h) {
+						continue
+					}
+					_, listE := p.resolveValue(fi, call.Args[0], 0)
+					_, nameE := p.resolveValue(fi, call.Args[1], 0)
+					lix, isIx := ast.Unparen(listE).(*ast.IndexExpr)
+					if !isIx || isCompKey(lix) {
+						continue
+					}
+					if ks, isK := constString(info, lix.Index); !isK || ks != "COMPRESSION" {
+						continue
+					}
+					if strings.HasSuffix(exprStr(nameE), ".compressor.Name()") {
+						okReq = true
+						how = "under " + atom + ": the server's COMPRESSION list contains compressor.Name()"
+					}
+				}
+			}
 			// the value requested must then be the compressor's name
 			if okReq {
 				v := exprStr(ast.Unparen(as.Rhs[0]))
@@ -387,10 +426,22 @@ func c18r5(p *Program, r *Report) {
 	}
 	var nVar string
 	for _, c := range callsIn(enc.Decl.Body) {
-		switch calleeName(einfo, c) {
+		name := calleeName(einfo, c)
+		dstArg, valArg := ast.Expr(nil), ast.Expr(nil)
+		if len(c.Args) == 2 {
+			dstArg, valArg = c.Args[0], c.Args[1]
+		}
+		if bi, vi, be, ok := lz4PutHelper(lp, einfo, c); ok {
+			dstArg, valArg = c.Args[bi], c.Args[vi]
+			name = "binary.(littleEndian).PutUint32"
+			if be {
+				name = "binary.(bigEndian).PutUint32"
+			}
+		}
+		switch name {
 		case "binary.(bigEndian).PutUint32":
-			b, lo, _, ok := lp.sliceRegion(enc, c.Args[0])
-			val := lp.canonText(enc, c.Args[1])
+			b, lo, _, ok := lp.sliceRegion(enc, dstArg)
+			val := lp.canonText(enc, valArg)
 			rr.Check(ok && b == bufName && lo == 0 && val == "uint32(len(data))", c, "lz4 Encode writes the big-endian uncompressed length at offset 0", "PutUint32(buf[0:], uint32(len(data)))", fmt.Sprintf("Encode does not write the uncompressed length big-endian at the start of the block (destination %s+%d, value %s)", b, lo, val))
 		case "binary.(littleEndian).PutUint32":
 			rr.Bad(c, "lz4 Encode writes the big-endian uncompressed length at offset 0", "the length prefix is written little-endian")
@@ -412,12 +463,24 @@ func c18r5(p *Program, r *Report) {
 		if !ok {
 			return true
 		}
-		switch calleeName(dinfo, c) {
+		name := calleeName(dinfo, c)
+		var srcArg ast.Expr
+		if len(c.Args) == 1 {
+			srcArg = c.Args[0]
+		}
+		if si, be, ok := lz4GetHelper(lp, dinfo, c); ok {
+			srcArg = c.Args[si]
+			name = "binary.(littleEndian).Uint32"
+			if be {
+				name = "binary.(bigEndian).Uint32"
+			}
+		}
+		switch name {
 		case "binary.(bigEndian).Uint32":
 			nread++
 			f, _ := facts.Before(lp.stmtOf(c, dec))
 			d := newDBM(dg, f, nil)
-			b, lo, _, okR := lp.sliceRegion(dec, c.Args[0])
+			b, lo, _, okR := lp.sliceRegion(dec, srcArg)
 			dataE := ast.Expr(ast.NewIdent(b))
 			d.noteLen(dataE)
 			lt, lk, ok := d.term(lenCall(dataE))
@@ -473,4 +536,161 @@ func c18r5(p *Program, r *Report) {
 	r.Obls = append(r.Obls, rr.Obls...)
 	r.Unres = append(r.Unres, rr.Unres...)
 	_ = types.Typ
+}
+
+// isContainsFunc: h(list []string, s string) bool returns true exactly when some element of list equals s: every
+// `return true` sits in a loop over the list under an equality of the element with s, the other returns are false.
+func isContainsFunc(p *Program, h *FuncInfo) bool {
+	if h.Decl.Body == nil || h.Decl.Type.Params == nil {
+		return false
+	}
+	info := h.Pkg.TypesInfo
+	listObj, strObj := paramObj(info, h.Decl.Type, 0), paramObj(info, h.Decl.Type, 1)
+	if listObj == nil || strObj == nil || !neverAssigned(info, h.Decl.Body, listObj) || !neverAssigned(info, h.Decl.Body, strObj) {
+		return false
+	}
+	ok, nTrue, nFalse := true, 0, 0
+	inspectNoLit(h.Decl.Body, func(x ast.Node) bool {
+		rs, isR := x.(*ast.ReturnStmt)
+		if !isR || len(rs.Results) != 1 {
+			return true
+		}
+		tv, has := info.Types[rs.Results[0]]
+		if !has || tv.Value == nil {
+			ok = false
+			return true
+		}
+		if tv.Value.String() == "false" {
+			nFalse++
+			return true
+		}
+		nTrue++
+		// enclosing if: elem == s ; enclosing loop over list
+		ifs, _ := p.enclosing(rs, h.Decl, func(m ast.Node) bool { _, is := m.(*ast.IfStmt); return is }).(*ast.IfStmt)
+		var loopElem string
+		loopOK := false
+		for cur := ast.Node(rs); cur != nil && cur != ast.Node(h.Decl); cur = p.Parent(cur) {
+			switch l := cur.(type) {
+			case *ast.RangeStmt:
+				if isIdentOf(info, l.X, listObj) {
+					loopOK = true
+					if l.Value != nil {
+						loopElem = exprStr(l.Value)
+					} else if l.Key != nil {
+						loopElem = exprStr(l.X) + "[" + exprStr(l.Key) + "]"
+					}
+				}
+			case *ast.ForStmt:
+				if b, isB := ast.Unparen(l.Cond).(*ast.BinaryExpr); isB && b.Op == token.LSS {
+					if lc, isL := ast.Unparen(b.Y).(*ast.CallExpr); isL && exprStr(lc.Fun) == "len" && len(lc.Args) == 1 && isIdentOf(info, lc.Args[0], listObj) {
+						loopOK = true
+						loopElem = listObj.Name() + "[" + exprStr(b.X) + "]"
+					}
+				}
+			}
+		}
+		if ifs == nil || !loopOK || !posWithin(ifs.Body, rs.Pos()) {
+			ok = false
+			return true
+		}
+		c := strings.ReplaceAll(exprStr(ifs.Cond), " ", "")
+		if c != loopElem+"=="+strObj.Name() && c != strObj.Name()+"=="+loopElem {
+			ok = false
+		}
+		return true
+	})
+	return ok && nTrue > 0 && nFalse > 0
+}
+
+// lz4PutHelper: the call is to a function of the module whose whole effect is storing one uint32 parameter into the
+// first four bytes of a []byte parameter (hand-written shifts or encoding/binary); returns the two parameter indices.
+func lz4PutHelper(lp *Program, info *types.Info, c *ast.CallExpr) (bufIdx, valIdx int, bigEndian, ok bool) {
+	fn := calleeOf(info, c)
+	if fn == nil {
+		return
+	}
+	h := lp.FuncOf(fn)
+	if h == nil || h.Decl.Body == nil || h.Decl.Recv != nil {
+		return
+	}
+	hinfo := h.Pkg.TypesInfo
+	enc, isEnc := encodingOf(hinfo, h.Decl.Body.List, nil)
+	if !isEnc || enc.Width != 4 || !strings.Contains(enc.How, "indexed") && !strings.Contains(enc.How, "binary.") {
+		return
+	}
+	if strings.Contains(enc.How, "neither") {
+		return
+	}
+	bufIdx, valIdx = -1, -1
+	for i := 0; ; i++ {
+		o := paramObj(hinfo, h.Decl.Type, i)
+		if o == nil {
+			break
+		}
+		if o.Name() == enc.Value {
+			valIdx = i
+		}
+		if sl, isS := o.Type().Underlying().(*types.Slice); isS && isByteType(sl.Elem()) {
+			if bufIdx >= 0 {
+				return 0, 0, false, false
+			}
+			bufIdx = i
+		}
+	}
+	if bufIdx < 0 || valIdx < 0 || len(c.Args) <= bufIdx || len(c.Args) <= valIdx {
+		return 0, 0, false, false
+	}
+	// the stores go to the parameter itself
+	bo := paramObj(hinfo, h.Decl.Type, bufIdx)
+	for _, st := range indexStores(hinfo, h.Decl.Body) {
+		if st.Buf != bo.Name() {
+			return 0, 0, false, false
+		}
+	}
+	for _, cc := range callsIn(h.Decl.Body) {
+		nm := calleeName(hinfo, cc)
+		if _, is := binaryPut[nm]; is || binaryPutLE[nm] > 0 {
+			if !isIdentOf(hinfo, cc.Args[0], bo) {
+				return 0, 0, false, false
+			}
+		}
+	}
+	return bufIdx, valIdx, enc.BigEndian, true
+}
+
+// lz4GetHelper: the call is to a function of the module that returns the four leading bytes of its []byte parameter
+// decoded as one integer.
+func lz4GetHelper(lp *Program, info *types.Info, c *ast.CallExpr) (srcIdx int, bigEndian, ok bool) {
+	fn := calleeOf(info, c)
+	if fn == nil {
+		return
+	}
+	h := lp.FuncOf(fn)
+	if h == nil || h.Decl.Body == nil || h.Decl.Recv != nil {
+		return
+	}
+	hinfo := h.Pkg.TypesInfo
+	var rets []*ast.ReturnStmt
+	inspectNoLit(h.Decl.Body, func(x ast.Node) bool {
+		if rs, is := x.(*ast.ReturnStmt); is {
+			rets = append(rets, rs)
+		}
+		return true
+	})
+	if len(rets) != 1 || len(rets[0].Results) != 1 {
+		return
+	}
+	d, isD := decodingOf(hinfo, rets[0].Results[0])
+	if !isD || d.Width != 4 || d.Offset != 0 {
+		return
+	}
+	for i := 0; ; i++ {
+		o := paramObj(hinfo, h.Decl.Type, i)
+		if o == nil {
+			return 0, false, false
+		}
+		if o.Name() == d.Base && len(c.Args) > i && neverAssigned(hinfo, h.Decl.Body, o) {
+			return i, d.BigEndian, true
+		}
+	}
 }
